@@ -127,7 +127,8 @@ class Variable:
         if isinstance(x, np.ndarray):
             self.value = x
         elif isinstance(x, pd.Series):
-            self.value = x.values
+            # Not 'x.values': for a nullable dtype that is a pandas array, not a numpy array
+            self.value = np.asarray(x)
         else:
             raise ValueError(f"Variable is of an unrecognized type ({type(x)}).")
 
